@@ -95,7 +95,11 @@ class SchedLock(object):
     def __exit__(self, *a): self.release()
 
 class Execution(object):
-    """One complete run of `bodies` (callables taking the thread index) under a choice list."""
+    """One complete run of `bodies` (callables taking the thread index) under a choice list.
+
+    The scheduling decision is taken by whichever thread holds the baton when it reaches a point (the
+    scheduler state is only ever touched by the baton holder); a hand-over between OS threads happens
+    only when the decision actually switches threads."""
     def __init__(self, bodies, choices, pointset, locks=(), finalizer=None):
         self.bodies, self.choices, self.ps = bodies, list(choices), pointset
         self.n = len(bodies)
@@ -113,13 +117,50 @@ class Execution(object):
         self.switch_in = {}        # function name -> switches away from a live thread standing inside it
         self.cur = None
         self.status = None
+        self.harness_error = None
+
+    # ---- scheduling decision (runs in the thread that holds the baton) ---------------------------
+    def _ready(self, t):
+        if self.done[t]: return False
+        w = self.waiting[t]
+        return w is None or w.owner is None
+    def _decide(self):
+        """-> index of the thread that runs next, or None when the execution is over"""
+        enabled = [t for t in range(self.n) if self._ready(t)]
+        if not enabled:
+            self.status = 'ok' if all(self.done) else 'deadlock'
+            return None
+        cur = self.cur
+        can_continue = cur in enabled
+        if can_continue and enabled[0] != cur:
+            enabled.remove(cur); enabled.insert(0, cur)
+        pos = len(self.decisions)
+        if pos < len(self.choices):
+            c = self.choices[pos]
+            if c >= len(enabled):
+                self.harness_error = 'C22 schedule replay diverged: choice %d of %r at decision %d' % (c, enabled, pos)
+                self.status = 'diverged'
+                return None
+        else: c = 0
+        self.decisions.append((tuple(enabled), c, can_continue and c != 0, can_continue))
+        nxt = enabled[c]
+        if cur is not None and nxt != cur and not self.done[cur]:
+            lab = self.trace[-1][1]
+            if '+' in lab:
+                fn = lab.split('+')[0]
+                self.switch_in[fn] = self.switch_in.get(fn, 0) + 1
+        self.cur = nxt
+        return nxt
 
     # ---- worker side ------------------------------------------------------------------------
     def me(self):
         return self.idents.get(_thread.get_ident())
     def point(self, i, label):
         self.trace.append((i, label))
-        self.main.release()
+        nxt = self._decide()
+        if nxt == i: return
+        if nxt is None: self.main.release()          # deadlock / divergence: give up, scheduler thread reports
+        else: self.sems[nxt].release()
         self.sems[i].acquire()
     def _tracer_for(self, i):
         codes = self.ps.codes
@@ -149,53 +190,29 @@ class Execution(object):
             self.errors[i] = (self.errors[i] or '') + ' finalizer %s: %s' % (type(e).__name__, e)
         self.done[i] = True
         self.trace.append((i, 'done'))
-        self.main.release()
+        nxt = self._decide()
+        if nxt is None: self.main.release()
+        else: self.sems[nxt].release()
     def _on_call(self, kind, sql, args, con):
         if kind in DRIVER_POINTS:
             i = self.me()
-            if i is not None: self.point(i, 'db:' + kind)
+            if i is not None and not self.done[i]: self.point(i, 'db:' + kind)
 
-    # ---- scheduler side -----------------------------------------------------------------------
-    def _ready(self, t):
-        if self.done[t]: return False
-        w = self.waiting[t]
-        return w is None or w.owner is None
+    # ---- scheduler thread ---------------------------------------------------------------------
     def run(self):
         for l in self.locks: l.ex, l.owner = self, None
         old_handler = dbapi.ENV.handler
         dbapi.ENV.handler = self._on_call
         threads = [threading.Thread(target=self._worker, args=(i,), daemon=True) for i in range(self.n)]
         for t in threads: t.start()
-        pos, nchoices, rng = 0, len(self.choices), range(self.n)
         try:
-            while True:
-                enabled = [t for t in rng if self._ready(t)]
-                if not enabled:
-                    self.status = 'ok' if all(self.done) else 'deadlock'
-                    break
-                cur = self.cur
-                can_continue = cur in enabled
-                if can_continue and enabled[0] != cur:
-                    enabled.remove(cur); enabled.insert(0, cur)
-                if pos < nchoices:
-                    c = self.choices[pos]
-                    if c >= len(enabled):
-                        raise core.HarnessError('C22 schedule replay diverged: choice %d of %r at decision %d' % (c, enabled, pos))
-                else: c = 0
-                self.decisions.append((tuple(enabled), c, can_continue and c != 0, can_continue))
-                nxt = enabled[c]
-                if cur is not None and nxt != cur and not self.done[cur]:
-                    lab = self.trace[-1][1]
-                    if '+' in lab:
-                        fn = lab.split('+')[0]
-                        self.switch_in[fn] = self.switch_in.get(fn, 0) + 1
-                pos += 1
-                self.cur = nxt
-                self.sems[nxt].release()
+            first = self._decide()
+            if first is not None:
+                self.sems[first].release()
                 if not self.main.acquire(True, HANG_SECONDS):
-                    raise core.HarnessError('C22: thread %d did not come back to the scheduler within %ds '
-                                            '(blocked outside a scheduling point?) trace tail %r'
-                                            % (nxt, HANG_SECONDS, self.trace[-5:]))
+                    raise core.HarnessError('C22: execution did not finish within %ds (a thread blocked outside a '
+                                            'scheduling point?) trace tail %r' % (HANG_SECONDS, self.trace[-5:]))
+            if self.harness_error: raise core.HarnessError(self.harness_error)
         finally:
             dbapi.ENV.handler = old_handler
             for l in self.locks: l.ex = None
@@ -219,41 +236,54 @@ class Execution(object):
         return [l for (t, l) in self.trace if t == i]
 
 class Explorer(object):
-    """Stateless search over choice lists with iterative preemption bounding."""
+    """Stateless search over choice lists with iterative preemption bounding.
+
+    A work item is (cost, prefix, fingerprint, fplen): the choice prefix to replay, the number of
+    preemptions it contains, and the fingerprint its parent execution had over the first fplen
+    decisions (None for an initial prefix). Children of an execution branch only at decisions at or
+    after len(prefix), so the subtrees of distinct items are disjoint: items can be handed to
+    different processes (expand() in one process, run() in others)."""
     def __init__(self, make_execution, bound, max_executions=None):
         self.make, self.bound, self.max = make_execution, bound, max_executions
         self.executions = 0
         self.edges = 0                 # distinct edges of the schedule tree that were executed
         self.by_preemptions = {}
         self.capped = False
-    def run(self, visit, roots=None):
-        """visit(execution) is called for every completed execution. roots: optional list of initial
-        choice prefixes (partition of the tree between processes)."""
+    def _one(self, item, visit):
+        cost0, prefix, fp, fplen = item
+        ex = self.make(prefix)            # a completed Execution
+        self.executions += 1
+        if fp is not None and ex.fingerprint(fplen) != fp:
+            raise core.HarnessError('C22: replaying prefix %r diverged from the execution that scheduled it' % (prefix,))
+        self.edges += len(ex.decisions) - max(0, len(prefix) - 1)
+        npre = ex.preemptions()
+        self.by_preemptions[npre] = self.by_preemptions.get(npre, 0) + 1
+        visit(ex)
+        taken = ex.taken()
+        used, children = 0, []
+        for k, (enabled, c, pre, can_continue) in enumerate(ex.decisions):
+            if k >= len(prefix) and len(enabled) > 1:
+                cost = used + (1 if can_continue else 0)
+                if cost <= self.bound:
+                    fpk = ex.fingerprint(k + 1)
+                    for alt in range(1, len(enabled)):
+                        children.append((cost, taken[:k] + [alt], fpk, k + 1))
+            if pre: used += 1
+        return children
+    def expand(self, prefix, visit):
+        """execute one initial prefix, return its children (work items)"""
+        return self._one((0, list(prefix), None, 0), visit)
+    def run(self, visit, items):
+        """visit(execution) is called for every completed execution of the subtrees of `items`"""
         heap, seq = [], 0
-        for r in (roots if roots is not None else [[]]):
-            heap.append((0, seq, list(r), None, 0)); seq += 1
+        for (cost, prefix, fp, fplen) in items:
+            heap.append((cost, seq, prefix, fp, fplen)); seq += 1
         heapq.heapify(heap)
         while heap:
-            cost0, _, prefix, fp, fplen = heapq.heappop(heap)
+            cost, _, prefix, fp, fplen = heapq.heappop(heap)
             if self.max is not None and self.executions >= self.max:
                 self.capped = True
                 break
-            ex = self.make(prefix)            # a completed Execution
-            self.executions += 1
-            if fp is not None and ex.fingerprint(fplen) != fp:
-                raise core.HarnessError('C22: replaying prefix %r diverged from the execution that scheduled it' % (prefix,))
-            self.edges += len(ex.decisions) - (len(prefix) - 1 if fp is not None else 0)
-            npre = ex.preemptions()
-            self.by_preemptions[npre] = self.by_preemptions.get(npre, 0) + 1
-            visit(ex)
-            taken = ex.taken()
-            used = 0
-            for k, (enabled, c, pre, can_continue) in enumerate(ex.decisions):
-                if k >= len(prefix) and len(enabled) > 1:
-                    cost = used + (1 if can_continue else 0)
-                    if cost <= self.bound:
-                        fpk = ex.fingerprint(k + 1)
-                        for alt in range(1, len(enabled)):
-                            heapq.heappush(heap, (cost, seq, taken[:k] + [alt], fpk, k + 1)); seq += 1
-                if pre: used += 1
+            for child in self._one((cost, prefix, fp, fplen), visit):
+                heapq.heappush(heap, (child[0], seq) + tuple(child[1:])); seq += 1
         return self
